@@ -401,8 +401,30 @@ def run_stft(c):
     exp = ola_ref([[factor * v for v in b] for b in blks], size, hop, None, False)
     if got != exp:
       raise Violation("windowless STFT output %r, expected %r" % (got, exp))
+  # --- the same processor is reusable: a second call with another window (given as a
+  #     different callable, same size) must be windowed by *that* window
+  labels_extra = []
+  if c["window_at"] == "analysis" and c["split"][5]:
+    w2 = [v + 1 for v in w]
+    del seen[:], log[:], ola_kw[:]
+    call2 = dict(call)
+    call2["wnd"] = (lambda n: list(w2)) if c["split"][6] else list(w2)
+    got2 = list(proc(list(sig), **call2))
+    for k, (s2, b) in enumerate(zip(seen, blks)):
+      exp = [wi * bi for wi, bi in zip(w2, b)]
+      if "before" in expect_order:
+        exp = [2 * v for v in exp]
+      if "transform" in expect_order:
+        exp = exp[::-1]
+      if s2 != exp:
+        raise Violation("second call of the same processor: user function saw block %d as %r, expected the new window x block = %r"
+                        % (k, s2, exp))
+    if len(seen) != nb or len(got2) != len(got):
+      raise Violation("second call of the same processor produced %d blocks / %d samples, first call %d / %d"
+                      % (len(seen), len(got2), nb, len(got)))
+    labels_extra.append("processor reused with another window")
   return {"nontrivial": nb >= 2 and R >= 2,
-          "labels": ["style:" + style, "window at " + c["window_at"], "stages:" + st_,
+          "labels": labels_extra + ["style:" + style, "window at " + c["window_at"], "stages:" + st_,
                      "call-time options" if call else "build-time only"] + (["call-time override"] if override else [])}
 
 
